@@ -61,6 +61,7 @@ type bArgs struct {
 	tgtCell    []byte
 	tmsi       string
 	r          *rand.Rand
+	morePsis   []int64 // PDU session ids inside an optional list argument
 	badArg     string // which argument is out of range ("" = none)
 	extName    bool   // the name is longer than the root of its extensible SIZE(1..150,...): carried exactly or refused
 	srcAmfIsIE int64  // IE id that carries the amf argument (10, or 100 for PathSwitchRequest)
@@ -89,6 +90,14 @@ func genVal[T any](a *bArgs) T {
 	g.NoExt = true
 	v := g.Value(reflect.TypeOf(z), per.Params{})
 	return v.Interface().(T)
+}
+// optVal: an optional argument, present in one call out of two.
+func optVal[T any](a *bArgs) *T {
+	if a.r.Intn(2) == 0 {
+		return nil
+	}
+	v := genVal[T](a)
+	return &v
 }
 func genList[T any](a *bArgs, n int) []T {
 	out := make([]T, n)
@@ -173,6 +182,18 @@ var c13Specs = []bSpec{
 		return viaEncoder(tp.BuildUplinkNasTransport(a.amf, a.ran, a.nas))
 	}, false},
 	{"Build.InitialContextSetupResponse", 2, 14, "amf ran psi ipv4", func(a *bArgs) (ngapType.NGAPPDU, []byte, error, bool) {
+		if a.r.Intn(2) == 0 { // the optional list of sessions that could not be set up
+			l := genVal[ngapType.PDUSessionResourceFailedToSetupListCxtRes](a)
+			for i := range l.List {
+				a.morePsis = append(a.morePsis, l.List[i].PDUSessionID.Value)
+				// the item's OCTET STRING holds an encoded transfer (from the independent encoder)
+				t := genVal[ngapType.PDUSessionResourceSetupUnsuccessfulTransfer](a)
+				if b, err := per.Marshal(t, "valueExt"); err == nil {
+					l.List[i].PDUSessionResourceSetupUnsuccessfulTransfer = b
+				}
+			}
+			return viaEncoder(tp.BuildInitialContextSetupResponse(a.amf, a.ran, a.psi, a.ipv4, &l))
+		}
 		return viaEncoder(tp.BuildInitialContextSetupResponse(a.amf, a.ran, a.psi, a.ipv4, nil))
 	}, false},
 	{"Build.InitialContextSetupFailure", 3, 14, "amf ran", func(a *bArgs) (ngapType.NGAPPDU, []byte, error, bool) {
@@ -297,13 +318,22 @@ var c13Specs = []bSpec{
 	}, false},
 	{"Build.PDUSessionResourceModifyConfirm", 2, 27, "amf ran", func(a *bArgs) (ngapType.NGAPPDU, []byte, error, bool) {
 		return viaEncoder(tp.BuildPDUSessionResourceModifyConfirm(a.amf, a.ran, genVal[ngapType.PDUSessionResourceModifyListModCfm](a),
-			genVal[ngapType.PDUSessionResourceFailedToModifyListModCfm](a), nil))
+			genVal[ngapType.PDUSessionResourceFailedToModifyListModCfm](a), optVal[ngapType.CriticalityDiagnostics](a)))
 	}, false},
 	{"Build.PDUSessionResourceReleaseCommand", 1, 28, "amf ran nas", func(a *bArgs) (ngapType.NGAPPDU, []byte, error, bool) {
-		return viaEncoder(tp.BuildPDUSessionResourceReleaseCommand(a.amf, a.ran, nil, a.nas, genVal[ngapType.PDUSessionResourceToReleaseListRelCmd](a)))
+		return viaEncoder(tp.BuildPDUSessionResourceReleaseCommand(a.amf, a.ran, optVal[ngapType.RANPagingPriority](a), a.nas, genVal[ngapType.PDUSessionResourceToReleaseListRelCmd](a)))
 	}, false},
 	{"Build.OverloadStart", 1, 22, "", func(a *bArgs) (ngapType.NGAPPDU, []byte, error, bool) {
-		return viaEncoder(tp.BuildOverloadStart(nil, nil, nil))
+		var ind *int64
+		if a.r.Intn(2) == 0 {
+			v := int64(1 + a.r.Intn(99))
+			ind = &v
+		}
+		var list []ngapType.OverloadStartNSSAIItem
+		if a.r.Intn(2) == 0 {
+			list = genList[ngapType.OverloadStartNSSAIItem](a, 1+a.r.Intn(3))
+		}
+		return viaEncoder(tp.BuildOverloadStart(optVal[ngapType.OverloadAction](a), ind, list))
 	}, false},
 	{"Build.OverloadStop", 1, 23, "", func(a *bArgs) (ngapType.NGAPPDU, []byte, error, bool) { return viaEncoder(tp.BuildOverloadStop()) }, false},
 }
@@ -661,7 +691,7 @@ func c13Verify(sp bSpec, a *bArgs, pdu *ngapType.NGAPPDU) (msg, key string) {
 		}
 		want := a.psis
 		if uses["psi"] {
-			want = []int64{a.psi}
+			want = append([]int64{a.psi}, a.morePsis...) // plus those of an optional list argument the case supplied
 		}
 		g, w := append([]int64(nil), got...), append([]int64(nil), want...)
 		sort.Slice(g, func(i, j int) bool { return g[i] < g[j] })
